@@ -167,7 +167,7 @@ Definition set_value (o : popts) (rp : string) (name : string) (idx : Z) (ov : o
 (** cfgPath.Remove *)
 Definition remove_field (f : field) (cur : value) : res (bool * value) :=
   match to_cfg cur with
-  | CVNot => Err ETypeMismatch "!raw:type mismatch"      (* bare ErrTypeMismatch from toConfig *)
+  | CVNot => Err EExpectedObject ""                     (* raiseExpectedObject (fix F29) *)
   | CVDyn => OutOfModel
   | CV d a =>
     match cur with
